@@ -454,6 +454,8 @@ class Ctx(object):
                 st['tolerance'] += 1
             if res.get('normal_form'):
                 st['normal_form'] = st.get('normal_form', 0) + 1
+            if res.get('linear_box_bound'):
+                st['linear_box_bound'] = st.get('linear_box_bound', 0) + 1
             if r == 'unsat':
                 st['discharged'] += 1
             elif r == 'sat':
@@ -524,6 +526,16 @@ class Ctx(object):
         model = s.model() if r == 'sat' else None
         if r == 'sat' and use_tol:
             # exact identity refuted: inexact concrete constants?  tolerance form
+            if self.S.poly_normal_form:
+                # affine differences: the exact maximum over the box is |c0| + box * sum |c_j|
+                from .poly import linear_box_bound
+                boxed = {vn for n, info in self.inputs.items() for vn, so in self._var_names(n, info) if so == T.R}
+                bound = linear_box_bound(list(zip(lt, rt)), boxed, use_tol[1])
+                if bound is not None and bound <= use_tol[0]:
+                    out['r'] = 'unsat'
+                    out['tolerance'] = True
+                    out['linear_box_bound'] = True
+                    return out
             s = ENG.fresh_solver(self.S.obligation_timeout_ms)
             r, model = self._tolerance_query(s, lt, rt, use_tol)
             if r == 'unknown':
